@@ -8,7 +8,7 @@ from fractions import Fraction
 import math
 import sys
 
-sys.setrecursionlimit(200000)
+sys.setrecursionlimit(12000)
 
 REAL, INT, BOOL = 'Real', 'Int', 'Bool'
 
